@@ -2278,7 +2278,16 @@ def alias_scenario(cfg=None):
 # strings profile (C09): equal contents reached by different creation routes
 # ======================================================================================
 STR_BASES = ["abc", "key", "push", "Box", "12", "1.5", "héλ", "a b", "x", "len", "init", "-3", "true", "nil",
-             "ab,cd", "Error", "message", "0", "日本語", "ß"]
+             "ab,cd", "Error", "message", "0", "日本語", "ß", "[1, 2]", "(1, 2)", "{ 'a': 1 }", "{}", "[]", "Times"]
+# contents that are the str() of a collection / iterator
+COLL_STR = {
+    "[1, 2]": ("list", [("num", 1.0), ("num", 2.0)]),
+    "(1, 2)": ("tuple", [("num", 1.0), ("num", 2.0)]),
+    "{ 'a': 1 }": ("map", [(("str", "a"), ("num", 1.0))]),
+    "{}": ("map", []),
+    "[]": ("list", []),
+    "Times": ("call", ("prop", ("num", 3.0), "times"), []),
+}
 
 
 def _numlike(s):
@@ -2338,6 +2347,8 @@ class GS(G):
             r += ["numfmt", "numfmt", "numinterp"]
         if t in ("true", "nil"):
             r += ["kwfmt", "kwfmt"]
+        if t in COLL_STR:
+            r += ["collstr", "collstr", "collstr"]
         if t.isascii() and any(c.isalpha() for c in t) and (t == t.lower() or t == t.upper()):
             r.append("case")
         if t in ("Box", "key", "Error") and not self.in_module:
@@ -2422,6 +2433,13 @@ class GS(G):
             v = _numlike(t)
             e = ("un", "-", ("num", -v)) if v < 0 else ("num", v)
             return kind, ("interp", [e])
+        if kind == "collstr":
+            e = COLL_STR[t]
+            if t != "Times" and self.chance(35):
+                return kind, ("interp", [e])
+            if e[0] in ("tuple", "map") or self.chance(50):
+                e = ("group", e)
+            return kind, ("call", ("prop", e, "str"), [])
         if kind == "kwfmt":
             e = ("true",) if t == "true" else ("nil",)
             if self.chance(50):
